@@ -1,11 +1,12 @@
 SPECIFICATION Spec
 CONSTANTS
-  N = 2
+  N = 3
   Keys = {k1}
-  NW = 1
+  NW = 2
   MaxDeps = 1
+  OriginalOffset = TRUE
   MaxFail = 0
-  Shapes <- ShapesAll
+  Shapes <- ShapesWriters
 INVARIANTS TypeOK NoOverlap QueueOrder AtMostOnce WaitOK
 
 
